@@ -88,12 +88,14 @@ CHECKS = {
                          '(per user / instance collection, and per job group cancellable rows) are compared with a '
                          'recount from the jobs table. Sampling of histories, not a proof.',
                   'counter recount after every commit', offset=0,
-                  expected=['cancel_committed', 'job_Ready_to_Running', 'job_Running_to_Ready']),
+                  expected=['cancel_committed', 'job_Ready_to_Running', 'job_Running_to_Ready'],
+                  extra_scenarios=[_procs('C01', 2_100_000, n_quick=2000)]),
     'C02': _entry('C02', 'After every commit that touches attempts / resources / aggregates, each billing aggregate '
                          '(job, job group incl. ancestors, billing project x user, by date) is compared with '
                          'sum(quantity x billed duration) recomputed from attempts.',
                   'billing recount after every commit', offset=100_000,
-                  expected=['billing_update_with_attempts']),
+                  expected=['billing_update_with_attempts'],
+                  extra_scenarios=[_procs('C02', 2_200_000, n_quick=2000)]),
     'C03': _entry('C03', 'Every change of an attempts row (from the transaction journal, so intermediate statements '
                          'inside procedures are seen) is checked against the monotonicity and bound rules.',
                   'transition monitor over every attempts-row change', offset=200_000,
@@ -106,7 +108,8 @@ CHECKS = {
                   extra_scenarios=[_procs('C04', 2_400_000)]),
     'C05': _entry('C05', 'Whenever a job becomes Ready all its parents are terminal at that commit; children of '
                          'failed parents are marked cancelled and never start unless always-run.',
-                  'dependency monitor at every commit', offset=400_000),
+                  'dependency monitor at every commit', offset=400_000,
+                  extra_scenarios=[_procs('C05', 2_700_000, n_quick=2000)]),
     'C06': _entry('C06', 'After every commit batch / job-group state, n_jobs and tallies equal the recount over '
                          'committed jobs of the subtree; what the API reports for a batch / job group (polled by a '
                          'reader throughout the run, and exhaustively at quiescence) agrees with the recount; job '
@@ -137,5 +140,6 @@ CHECKS = {
                   extra_scenarios=[_procs('C39', 2_600_000, n_quick=2000)]),
     'C41': _entry('C41', 'Jobs of uncommitted updates never get attempts, never enter Creating/Running/terminal '
                          'states and never contribute to counters or tallies (recount over committed jobs).',
-                  'uncommitted-update monitors + recount', offset=900_000),
+                  'uncommitted-update monitors + recount', offset=900_000,
+                  extra_scenarios=[_procs('C41', 2_800_000, n_quick=2000)]),
 }
